@@ -173,7 +173,7 @@ def run_tool(bdir, tool, args, cwd, timeout=60, env=None, stdin=None):
 
 def lean_build(targets):
     """lake build of the given module / exe targets. Returns (ok, output)."""
-    with Lock("lake"):
+    with Lock("lake-" + hashlib.sha1(LEAN_DIR.encode()).hexdigest()[:8]):
         r = sh(["lake", "build"] + list(targets), cwd=LEAN_DIR, timeout=3600)
     out = (r.stdout + r.stderr).decode(errors="replace")
     return r.returncode == 0, out
